@@ -4,6 +4,7 @@
 -/
 import Lessm.Model.Color
 import Lessm.Model.Sign
+import Lessm.Model.NumE
 import Lessm.Model.Builtins
 import Lessm.Model.Guard
 import Lessm.Model.ExprGen
@@ -681,6 +682,13 @@ def handle (op : String) (payload : String) : String :=
   | "c15.rec", ws => lrRecognise ws
   | "c12.filter", ws => String.intercalate " " (Lex.filter Gen.significantWs ws)
   | "c09.fn", ws => colorFn ws
+  | "c17.split", [lex] =>
+      -- utility.split_unit / analyze_number with the exponent group
+      match Num.splitUnitE lex.toList with
+      | none => "none"
+      | some (n, u) =>
+          String.ofList n ++ " [" ++ String.ofList u ++ "] " ++
+            (match Num.analyzeE lex.toList with | some (v, _) => Num.ratStr v | none => "nan")
   | "c04.signs", ws =>
       -- tokens of a resolved value; `<S>` is the sign of a negated variable (utility.Sign)
       String.intercalate " " ((Sign.foldSigns (ws.map (fun w => if w == "<S>" then Sign.Tok.sign else Sign.Tok.txt w))).map
